@@ -186,6 +186,8 @@ func (w *gzipResponseWriter) Flush() {
 		// The gzip stream is started here even when nothing has been written yet. It is part of the body now and
 		// has to be finished properly (and its Content-Encoding header kept) when the handler returns.
 		w.wroteBody = true
+		// A Content-Length set by the handler is not the length of the compressed body (see WriteHeader, issue #444).
+		w.Header().Del(echo.HeaderContentLength)
 		w.Header().Set(echo.HeaderContentEncoding, gzipScheme) // Issue #806
 		if w.wroteHeader {
 			w.ResponseWriter.WriteHeader(w.code)
